@@ -29,6 +29,9 @@ type Parser struct {
 
 	inBacktick bool
 	recur      int64
+
+	// endOfText: AddEndOfText was called, no further input will follow.
+	endOfText bool
 }
 
 type ParserReply struct {
@@ -68,6 +71,7 @@ func (p *Parser) Reset() {
 	}
 	p.sendMe = &ParserReply{}
 	p.yield = nil
+	p.endOfText = false
 	p.lexer.Reset()
 }
 
@@ -93,6 +97,7 @@ func (p *Parser) NewInput(s io.RuneScanner) {
 // Callers that deliver a text piece by piece (the REPL) do not call it.
 func (p *Parser) AddEndOfText() {
 	p.lexer.AddNextStream(bytes.NewBufferString("\n"))
+	p.endOfText = true
 }
 
 func (p *Parser) ResetAddNewInput(s io.RuneScanner) {
@@ -103,6 +108,7 @@ func (p *Parser) ResetAddNewInput(s io.RuneScanner) {
 	}
 	p.yield = nil
 	p.sendMe = &ParserReply{}
+	p.endOfText = false
 	p.lexer.Reset()
 	p.lexer.AddNextStream(s)
 }
@@ -528,7 +534,16 @@ func (parser *Parser) ParseExpression(depth int) (res Sexp, err error) {
 	case TokenSymbol:
 		if tok.str == "-" || tok.str == "+" {
 			// are we -Inf ?
-			tok2, err := parser.ParserPeekNextToken(0)
+			var tok2 Token
+			var err error
+			if parser.endOfText {
+				// a complete text may end in the symbol + or -:
+				// do not ask for more input that cannot come
+				// ((read "+") failed, EvalString("-") wanted more).
+				tok2, err = lexer.PeekNextToken(0)
+			} else {
+				tok2, err = parser.ParserPeekNextToken(0)
+			}
 			if err != nil {
 				return SexpEnd, err
 			}
@@ -628,6 +643,21 @@ func (p *Parser) ParsingIter() iter.Seq[*ParserReply] {
 		// allow ParseExpression to yield when deep
 		// down the stack (half way through a parse)
 		// and we need more input.
+		// never call yield again once it has returned false (the
+		// consumer stopped): Go panics with "range function continued
+		// iteration" otherwise, e.g. for (read "(1 2").
+		stopped := false
+		origYield := yield
+		yield = func(reply *ParserReply) bool {
+			if stopped {
+				return false
+			}
+			if !origYield(reply) {
+				stopped = true
+				return false
+			}
+			return true
+		}
 		p.yield = yield
 
 		var expr Sexp
